@@ -161,6 +161,11 @@ theorem layer_content (s : State δ) (hs : Inv s) (ts : List String) (ov : Overl
     · cases hne
   · cases hne
 
+/-- for `δ = Node`: the layer an overlay document builds from a constructible document (sorted
+    unique keys, none ending in an index group) is that document — `overlayLayer` is what the
+    driver applies to every served layer -/
+theorem layer_copy_exact (n : Node) (h : n.Valid) : overlayLayer n = n := overlayLayer_id h
+
 /-- NamedDocument(n) == spec[n] or nil -/
 theorem named_spec (s : State δ) (hs : Inv s) (n : String) :
     namedDocument s n = (specFind (abs s).entries n).map (·.2.1) := by
